@@ -196,9 +196,7 @@ fn main() -> miette::Result<()> {
                 bytes.extend_from_slice(&stmt.emit()?.to_be_bytes());
             }
 
-            let mut file = File::create(&out_file_name).into_diagnostic()?;
-            file.write_all(&bytes).into_diagnostic()?;
-            file.flush().into_diagnostic()?;
+            write_all_or_nothing(&out_file_name, &bytes).into_diagnostic()?;
 
             message(Green, "Finished", "emit binary");
             file_message(Green, "Saved", &out_file_name);
@@ -280,6 +278,35 @@ fn main() -> miette::Result<()> {
         }
         Some(Command::Fmt { name: _ }) => todo!("Formatting is not currently implemented"),
     }
+}
+
+/// Write `bytes` to `dest` so that `dest` ends up either completely written, or as it was.
+///
+/// A regular (or absent) destination is never written in place: a write which fails half-way
+/// (disk full, file size limit) would leave it truncated. The bytes go to a temporary file next
+/// to it, which replaces the destination only once it is complete.
+fn write_all_or_nothing(dest: &Path, bytes: &[u8]) -> std::io::Result<()> {
+    fn write(path: &Path, bytes: &[u8]) -> std::io::Result<()> {
+        let mut file = File::create(path)?;
+        file.write_all(bytes)?;
+        file.flush()
+    }
+
+    // Write through symlinks, rather than replacing them
+    let dest = fs::canonicalize(dest).unwrap_or(dest.to_path_buf());
+    // Devices, pipes, etc. cannot be replaced by renaming; a failed write leaves nothing behind
+    if fs::metadata(&dest).is_ok_and(|meta| !meta.is_file()) {
+        return write(&dest, bytes);
+    }
+
+    let mut tmp = dest.clone().into_os_string();
+    tmp.push(format!(".tmp{}", std::process::id()));
+    let tmp = PathBuf::from(tmp);
+    let result = write(&tmp, bytes).and_then(|()| fs::rename(&tmp, &dest));
+    if result.is_err() {
+        let _ = fs::remove_file(&tmp);
+    }
+    result
 }
 
 #[allow(unused)]
